@@ -228,6 +228,22 @@ def check_fixstr(rep, tier):
                 if not ok_d:
                     rep.violation("fixstr/decode-layout", f"FixedSizeString({cap},{lb}-byte LEN).decode(len {n}, stale tail) = {d!r:.100}",
                                   {"kind": "fixstr", "cap": cap, "lb": lb, "n": n})
+            # LEN fields a controller should never hold but a byte pattern can: larger than the capacity, top bit set, all ones.
+            # The reference takes min(LEN, capacity) characters (LEN is unsigned); also through the default-argument form the driver uses.
+            top = 1 << (8 * lb)
+            data = bytes((i * 7 + 65) % 256 for i in range(cap))
+            forms = [(F, f"{lb}-byte LEN")] + ([(FixedSizeString(cap), "default LEN type")] if lb == 4 else [])
+            for ln in sorted(x for x in {cap + 1, 2 * cap + 3, top // 2 - 1, top // 2, top // 2 + cap // 2, top - 3, top - 1} if cap < x < top):
+                for Fx, how in forms:
+                    img = ln.to_bytes(lb, "little") + data
+                    st = TS.CountingIO(img + b"\x77")
+                    d = _try(Fx.decode, st)
+                    want = R.dec(desc, img, 0)[0]
+                    okp = d[0] == "ok" and d[1] == want and st.tell() == len(img)
+                    rep.case(("fixstr-len", cap, lb, ln, how), outcome="ok" if okp else "differs")
+                    if not okp:
+                        rep.violation("fixstr/decode-len-pattern", f"FixedSizeString({cap}, {how}).decode with LEN field {ln:#x} = {d!r:.80}, reference {want!r:.40}",
+                                      {"kind": "fixstr", "cap": cap, "lb": lb, "n": 0})
 
 
 def run_shard(shard, tier, seed):
